@@ -103,7 +103,7 @@ ADDENDA = {
     "C12": " A ping with nothing piggybacked; every encryption roll-out pair in quick; floods with the delegate free-running. Join-target forms and odd node names; a member that left and came back from another address must be reachable through the Node the sender lists.",
     "C13": " Victim whose keys are installed at run time; the node itself opening a state exchange towards a peer that never reads (bounded socket buffers in the simulated streams). 600-1100 silent inbound streams at once.",
     "C14": " Keys installed at run time into an empty keyring; a key removed while a stream sealed under it is still arriving. Unauthentic packets while genuine messages wait for a busy delegate.",
-    "C17": " Rotation driven through the application's own keyring handles, with Keyring and SecretKey both configured. 46 KB reliable payloads in the rotation probes.",
+    "C17": " Rotation driven through the application's own keyring handles, with Keyring and SecretKey both configured. 46 KB reliable payloads in the rotation probes; quiet rotation cases (no background traffic, sparse probing).",
     "C18": " The node's own advertised address changing to a disallowed one before UpdateNode. Two state exchanges of 300 members in a row.",
     "C19": " An acknowledgement carrying the number of a relayed ping that could not be sent.",
     "C20": " SendReliable / Join towards a member that completes the handshake and never reads (bounded socket buffers): the call returns about TCPTimeout later, Shutdown works, nothing stays behind.",
